@@ -1250,13 +1250,18 @@ _lookup(LB* self,
     if (result == NULL) {
         int status;
 
+        /* The call can run arbitrary code, including code that clears
+           our caches: keep the cache we are about to fill alive. */
+        Py_INCREF(cache);
         result = PyObject_CallMethodObjArgs(
           OBJECT(self), str_uncached_lookup, required, provided, name, NULL);
         if (result == NULL) {
+            Py_DECREF(cache);
             Py_DECREF(required);
             return NULL;
         }
         status = PyDict_SetItem(cache, key, result);
+        Py_DECREF(cache);
         Py_DECREF(required);
         if (status < 0) {
             Py_DECREF(result);
@@ -1509,13 +1514,16 @@ _lookupAll(LB* self, PyObject* required, PyObject* provided)
     if (result == NULL) {
         int status;
 
+        Py_INCREF(cache); /* see _lookup */
         result = PyObject_CallMethodObjArgs(
           OBJECT(self), str_uncached_lookupAll, required, provided, NULL);
         if (result == NULL) {
+            Py_DECREF(cache);
             Py_DECREF(required);
             return NULL;
         }
         status = PyDict_SetItem(cache, required, result);
+        Py_DECREF(cache);
         Py_DECREF(required);
         if (status < 0) {
             Py_DECREF(result);
@@ -1577,13 +1585,16 @@ _subscriptions(LB* self, PyObject* required, PyObject* provided)
     if (result == NULL) {
         int status;
 
+        Py_INCREF(cache); /* see _lookup */
         result = PyObject_CallMethodObjArgs(
           OBJECT(self), str_uncached_subscriptions, required, provided, NULL);
         if (result == NULL) {
+            Py_DECREF(cache);
             Py_DECREF(required);
             return NULL;
         }
         status = PyDict_SetItem(cache, required, result);
+        Py_DECREF(cache);
         Py_DECREF(required);
         if (status < 0) {
             Py_DECREF(result);
